@@ -618,13 +618,15 @@ Tx(d) ==
                             \cup {{RandomElement(AllKinds), RandomElement(AllKinds), RandomElement(AllKinds), RandomElement(AllKinds)}})
       fc   == FaultChoices(d)
       f    == RandomElement(fc)
+      f2   == RandomElement(fc)        \* a second, independently chosen fault (pairs of faults, C11 / C02)
   IN [ range |-> [from |-> from, to |-> to, defat |-> RandomElement(0..n)],
        ban |-> B, banned_at |-> FirstBanned(d, B \ {"MACRO", "PASTE", "INCLUDE"}), kinds |-> KindsOf(d),
        adds |-> {LET pos == RandomElement(0..n) IN
                    [b |-> b, pos |-> pos, keys |-> CatKeys(Catalog(InsertAt2(d, pos, b))) \ CatKeys(Catalog(d))]
                  : b \in FreshBlocks},
        removable |-> {[i |-> i, keys |-> CatKeys(Catalog(d)) \ CatKeys(Catalog(RemoveAt2(d, i)))] : i \in Removable(d)},
-       fault |-> f, fault_sites |-> FaultSites(d, f) ]
+       fault |-> f, fault_sites |-> FaultSites(d, f),
+       fault2 |-> f2, fault2_sites |-> FaultSites(d, f2) ]
 
 \* exhaustive configs: only complete graphs (MaxBlocks blocks) are emitted
 Emit == (phase = "done" /\ ("graph" \in Features => (Len(doc) >= MaxBlocks /\ Valid(doc)))) =>
